@@ -11,13 +11,22 @@ theorem stmtEnd_forced' {de : Bool} {info : Info} {p : Nat} (h : isForcedEnd (st
     de = false ∧ isForcedEnd (info.endAt p) = true := by
   cases de <;> simp_all [stmtEnd]
 
+theorem if_some_fields (ls : List Id) (p : Nat) (test : Kids) (c al : Stmt) (hpl : test.compl.plain = true) :
+    let s := Stmt.compl ls (.ifS p test c (some al))
+    s.n = (test.compl.n && ((c.compl []).n || (al.compl []).n)) ∧ s.b = (test.compl.n && ((c.compl []).b || (al.compl []).b)) ∧
+    s.c = (test.compl.n && ((c.compl []).c || (al.compl []).c)) ∧
+    s.hasCl = (test.compl.n && ((c.compl []).hasCl || (al.compl []).hasCl)) ∧
+    s.t = (test.compl.t || (test.compl.n && ((c.compl []).t || (al.compl []).t))) := by
+  simp [Stmt.compl, Compl.plain_b hpl, Compl.plain_c hpl, Compl.plain_hasCl hpl]
+
 theorem if_some_ok (live : Bool) (ls : List Id) (p : Nat) (test : Kids) (c al : Stmt) (a : A)
+    (hpl : test.compl.plain = true)
     (hpre : Pre live (p :: (test.positions ++ (c.positions ++ al.positions))) a)
-    (ihk : ∀ x, PreK test.positions x → PostK test.upos test.positions test.inner test.mayThrow x (visitKids test x))
-    (ihc : ∀ a0, Pre live c.positions a0 → PostS live [] c a0 (visitStmt c a0))
-    (iha : ∀ a0, Pre live al.positions a0 → PostS live [] al a0 (visitStmt al a0)) :
+    (ihk : ∀ x, Pre live test.positions x → KidsL live test x (visitKids test x))
+    (ihc : ∀ a0, Pre (live && test.compl.n) c.positions a0 → PostS (live && test.compl.n) [] c a0 (visitStmt c a0))
+    (iha : ∀ a0, Pre (live && test.compl.n) al.positions a0 → PostS (live && test.compl.n) [] al a0 (visitStmt al a0)) :
     PostS live ls (.ifS p test c (some al)) a (visitStmt (.ifS p test c (some al)) a) := by
-  have hk := ihk _ (Prefix.preK hpre)
+  have hk := ihk _ (Prefix.pre hpre)
   have hv : visitStmt (.ifS p test c (some al)) a =
       (let a1 := visitKids test (flagA a p .other)
        let a2 := withChild .ifK c.pos (fun x => sobTail c (visitStmt c x)) a1
@@ -27,6 +36,9 @@ theorem if_some_ok (live : Bool) (ls : List Id) (p : Nat) (test : Kids) (c al : 
   simp only []
   generalize visitKids test (flagA a p .other) = a1 at hk ⊢
   have hx := Prefix.of hpre hk
+  have hxs0 := hx.hs
+  generalize hL : (live && test.compl.n) = L at hxs0 ihc iha
+  have hxs : stopsEnd a1.sc.end_ = true → L = false := hxs0
   have hnd2 := List.nodup_append.mp hx.ndr
   have hdisj : ∀ q, q ∈ c.positions → q ∈ al.positions → False := fun q h1 h2 => hnd2.2.2 q h1 q h2 rfl
   have hpc : p ∉ c.positions := fun h => hx.pr (List.mem_append.mpr (Or.inl h))
@@ -34,38 +46,38 @@ theorem if_some_ok (live : Bool) (ls : List Id) (p : Nat) (test : Kids) (c al : 
   have htc : ∀ q, q ∈ test.positions → q ∉ c.positions := fun q h h' => hx.disj q h (List.mem_append.mpr (Or.inl h'))
   have hta : ∀ q, q ∈ test.positions → q ∉ al.positions := fun q h h' => hx.disj q h (List.mem_append.mpr (Or.inr h'))
   -- first branch
-  have hprec : Pre live c.positions (childA .ifK a1) :=
-    childA_pre live .ifK _ a1 hx.hs (fun q hq => hx.hfresh q (List.mem_append.mpr (Or.inl hq))) hnd2.1
-  have h1 := sob_ok live [] c _ _ (ihc _ hprec)
+  have hprec : Pre L c.positions (childA .ifK a1) :=
+    childA_pre L .ifK _ a1 hxs (fun q hq => hx.hfresh q (List.mem_append.mpr (Or.inl hq))) hnd2.1
+  have h1 := sob_ok L [] c _ _ (ihc _ hprec)
   generalize ha2 : withChild .ifK c.pos (fun x => sobTail c (visitStmt c x)) a1 = a2
   rw [withChild_if] at ha2
-  obtain ⟨hi2, he2, hb2, hc2, hmb2, hmc2, hmt2, hpt2⟩ := ifChild live [] c a1 _ a2 h1 ha2.symm
+  obtain ⟨hi2, he2, hb2, hc2, hmb2, hmc2, hmt2, hpt2⟩ := ifChild L [] c a1 _ a2 h1 ha2.symm
   generalize sobTail c (visitStmt c (childA .ifK a1)) = c' at h1 hi2
   -- second branch
-  have hprea : Pre live al.positions (childA .ifK a2) := by
-    refine childA_pre live .ifK _ a2 (fun h => hx.hs (by rw [← he2]; exact h)) ?_ hnd2.2.1
+  have hprea : Pre L al.positions (childA .ifK a2) := by
+    refine childA_pre L .ifK _ a2 (fun h => hxs (by rw [← he2]; exact h)) ?_ hnd2.2.1
     intro q hq
     rw [hi2, endAt_eq_of_info_eq (h1.frame q (fun hqc => hdisj q hqc hq))]
     exact hx.hfresh q (List.mem_append.mpr (Or.inr hq))
-  have h2 := sob_ok live [] al _ _ (iha _ hprea)
+  have h2 := sob_ok L [] al _ _ (iha _ hprea)
   generalize ha3 : withChild .ifK al.pos (fun x => sobTail al (visitStmt al x)) a2 = a3
   rw [withChild_if] at ha3
-  obtain ⟨hi3, he3, hb3, hc3, hmb3, hmc3, hmt3, hpt3⟩ := ifChild live [] al a2 _ a3 h2 ha3.symm
+  obtain ⟨hi3, he3, hb3, hc3, hmb3, hmc3, hmt3, hpt3⟩ := ifChild L [] al a2 _ a3 h2 ha3.symm
   generalize sobTail al (visitStmt al (childA .ifK a2)) = al' at h2 hi3
-  have hcr : stopsEnd (stmtEnd c.isDeclOrExpr a2.info c.pos) = true → (live && (c.compl []).n) = false := by
+  have hcr : stopsEnd (stmtEnd c.isDeclOrExpr a2.info c.pos) = true → (L && (c.compl []).n) = false := by
     intro h; have h := stmtEnd_stops' h; rw [hi2] at h; exact h1.p4 h.1 h.2
-  have har : stopsEnd (stmtEnd al.isDeclOrExpr a3.info al.pos) = true → (live && (al.compl []).n) = false := by
+  have har : stopsEnd (stmtEnd al.isDeclOrExpr a3.info al.pos) = true → (L && (al.compl []).n) = false := by
     intro h; have h := stmtEnd_stops' h; rw [hi3] at h; exact h2.p4 h.1 h.2
   obtain ⟨e, hje, hjs⟩ := ifJoin_eq p (stmtEnd c.isDeclOrExpr a2.info c.pos) (stmtEnd al.isDeclOrExpr a3.info al.pos) a3
   rw [hje]
-  have hn : (Stmt.compl ls (.ifS p test c (some al))).n = ((c.compl []).n || (al.compl []).n) := by simp [Stmt.compl]
+  obtain ⟨fn, fb, fc, fl, ft⟩ := if_some_fields ls p test c al hpl
   have hstop : stopsEnd a3.sc.end_ = true ∨ stopsEnd (some e) = true →
-      (live && ((c.compl []).n || (al.compl []).n)) = false := by
+      (L && ((c.compl []).n || (al.compl []).n)) = false := by
     rintro (h | h)
-    · rw [he3, he2] at h; simp [hx.hs h]
+    · rw [he3, he2] at h; simp [hxs h]
     · have := hjs h
       have x := hcr this.1; have y := har this.2
-      revert x y; cases live <;> cases (c.compl []).n <;> cases (al.compl []).n <;> simp
+      revert x y; cases L <;> cases (c.compl []).n <;> cases (al.compl []).n <;> simp
   -- the `unreachable` flag at the positions of the three parts
   have hur3 : ∀ q, a3.info.ur q = al'.info.ur q := fun q => by rw [hi3]
   have hurA : ∀ q, q ∉ al.positions → a3.info.ur q = c'.info.ur q := fun q hq => by
@@ -75,58 +87,64 @@ theorem if_some_ok (live : Bool) (ls : List Id) (p : Nat) (test : Kids) (c al : 
   refine ⟨⟨?_, ?_, ?_, ?_, ?_, ?_, ?_, ?_, ?_, ?_, ?_⟩, ?_⟩
   · intro hst
     rw [markAsEnd_stops] at hst
-    rw [hn]; apply hstop
+    rw [show (live && (Stmt.compl ls (.ifS p test c (some al))).n) = (L && ((c.compl []).n || (al.compl []).n)) by
+      rw [if_some_fields ls p test c al hpl |>.1, ← Bool.and_assoc, hL]]
+    apply hstop
     revert hst; cases stopsEnd a3.sc.end_ <;> simp
   · intro hh
     rw [markAsEnd_foundBreak]
-    have : (live && (c.compl []).b) = true ∨ (live && (al.compl []).b) = true := by
-      simp only [Stmt.compl, seq_b, evalCompl_b, evalCompl_n, union_b, Bool.false_or, Bool.true_and] at hh
-      revert hh; cases live <;> cases (c.compl []).b <;> simp
+    rw [(if_some_fields ls p test c al hpl).2.1, ← Bool.and_assoc, hL] at hh
+    have : (L && (c.compl []).b) = true ∨ (L && (al.compl []).b) = true := by
+      revert hh; cases L <;> cases (c.compl []).b <;> simp
     rcases this with h | h
     · exact hmb3 (hb2 h)
     · exact hb3 h
   · intro hh
     rw [markAsEnd_foundContinue]
-    have : (live && (c.compl []).c) = true ∨ (live && (al.compl []).c) = true := by
-      simp only [Stmt.compl, seq_c, evalCompl_c, evalCompl_n, union_c, Bool.false_or, Bool.true_and] at hh
-      revert hh; cases live <;> cases (c.compl []).c <;> simp
+    rw [(if_some_fields ls p test c al hpl).2.2.1, ← Bool.and_assoc, hL] at hh
+    have : (L && (c.compl []).c) = true ∨ (L && (al.compl []).c) = true := by
+      revert hh; cases L <;> cases (c.compl []).c <;> simp
     rcases this with h | h
     · exact hmc3 (hc2 (by rw [Bool.and_or_distrib_left, h]; rfl))
     · exact hc3 (by rw [Bool.and_or_distrib_left, h]; rfl)
-  · intro hh; rw [markAsEnd_foundBreak]; exact hmb3 (hmb2 (by rw [hx.hb]; exact hh))
+  · intro hh; rw [markAsEnd_foundBreak]; exact hmb3 (hmb2 (hx.hb hh))
   · intro hh; rw [markAsEnd_foundContinue]; exact hmc3 (hmc2 (hx.hc hh))
   · intro hh
     rw [markAsEnd_foundContinue]
-    have : (live && (c.compl []).hasCl) = true ∨ (live && (al.compl []).hasCl) = true := by
-      simp only [Stmt.compl, seq_hasCl, evalCompl_hasCl, evalCompl_n, union_hasCl, Bool.false_or, Bool.true_and] at hh
-      revert hh; cases live <;> cases (c.compl []).hasCl <;> simp
+    rw [(if_some_fields ls p test c al hpl).2.2.2.1, ← Bool.and_assoc, hL] at hh
+    have : (L && (c.compl []).hasCl) = true ∨ (L && (al.compl []).hasCl) = true := by
+      revert hh; cases L <;> cases (c.compl []).hasCl <;> simp
     rcases this with h | h
     · exact hmc3 (hc2 (by rw [Bool.and_or_distrib_left, h]; simp))
     · exact hc3 (by rw [Bool.and_or_distrib_left, h]; simp)
   · intro q hq hu
     rw [markAsEnd_ur] at hu
     simp only [Stmt.upos, List.mem_cons, List.mem_append] at hq
-    simp only [Stmt.reach, evalCompl_n, Bool.true_and]
+    simp only [Stmt.reach, evalCompl_eq]
     rcases hq with rfl | hqt | hqc | hqa
     · have := hx.dead hpre _ (hurC q hpa hpc) hu
       simp [this]
     · have hqt' := Kids.upos_sub test q hqt
       have hne : q ≠ p := fun e => hx.pk (e ▸ hqt')
-      simp [hne, c.reach_false q (htc q hqt'), al.reach_false q (hta q hqt')]
+      rw [hurC q (hta q hqt') (htc q hqt')] at hu
+      have := hk.p3 q hqt hu
+      revert this; cases live <;> simp [hne, c.reach_false q (htc q hqt'), al.reach_false q (hta q hqt')]
     · have hqc' := Stmt.upos_sub c q hqc
       have hne : q ≠ p := fun e => hpc (e ▸ hqc')
       have hna : q ∉ al.positions := fun h => hdisj q hqc' h
       rw [hurA q hna] at hu
       have := h1.p3 q hqc hu
-      rw [al.reach_false q hna]
-      revert this; cases live <;> simp [hne]
+      rw [← hL] at this
+      rw [al.reach_false q hna, Kids.flowReach_false test q (fun h => htc q h hqc')]
+      revert this; cases live <;> cases test.compl.n <;> simp [hne]
     · have hqa' := Stmt.upos_sub al q hqa
       have hne : q ≠ p := fun e => hpa (e ▸ hqa')
       have hnc : q ∉ c.positions := fun h => hdisj q h hqa'
       rw [hur3] at hu
       have := h2.p3 q hqa hu
-      rw [c.reach_false q hnc]
-      revert this; cases live <;> simp [hne]
+      rw [← hL] at this
+      rw [c.reach_false q hnc, Kids.flowReach_false test q (fun h => hta q h hqa')]
+      revert this; cases live <;> cases test.compl.n <;> simp [hne]
   · intro q hq hu
     rw [markAsEnd_ur] at hu
     simp only [Stmt.upos, List.mem_cons, List.mem_append] at hq
@@ -135,7 +153,7 @@ theorem if_some_ok (live : Bool) (ls : List Id) (p : Nat) (test : Kids) (c al : 
     · simp [Kids.inner_false test q hx.pk, c.inner_false q hpc, al.inner_false q hpa]
     · have hqt' := Kids.upos_sub test q hqt
       rw [hurC q (hta q hqt') (htc q hqt')] at hu
-      simp [hk.p3 q hqt hu, c.inner_false q (htc q hqt'), al.inner_false q (hta q hqt')]
+      simp [hk.p3i q hqt hu, c.inner_false q (htc q hqt'), al.inner_false q (hta q hqt')]
     · have hqc' := Stmt.upos_sub c q hqc
       have hna : q ∉ al.positions := fun h => hdisj q hqc' h
       rw [hurA q hna] at hu
@@ -154,18 +172,22 @@ theorem if_some_ok (live : Bool) (ls : List Id) (p : Nat) (test : Kids) (c al : 
   · intro hh; rw [markAsEnd_mayThrow]; exact hmt3 (hmt2 (hx.hmt hh))
   · intro hh
     rw [markAsEnd_mayThrow]
-    simp only [Stmt.compl, seq_t, evalCompl_t, evalCompl_n, union_t, Bool.true_and] at hh
-    cases hkt : (live && test.mayThrow) with
-    | true => exact hmt3 (hmt2 (Prefix.pT hpre hk hkt))
+    rw [ft] at hh
+    cases hkt : (live && test.compl.t) with
+    | true => exact hmt3 (hmt2 (hx.pT hkt))
     | false =>
-      cases hct : (live && (c.compl []).t) with
+      have hh' : (L && ((c.compl []).t || (al.compl []).t)) = true := by
+        rw [← hL]; revert hh hkt; cases live <;> cases test.compl.t <;> cases test.compl.n <;> simp
+      cases hct : (L && (c.compl []).t) with
       | true => exact hmt3 (hpt2 hct)
       | false =>
         apply hpt3
-        revert hh hkt hct; cases live <;> cases test.mayThrow <;> cases (c.compl []).t <;> simp
+        revert hh' hct; cases L <;> cases (c.compl []).t <;> simp
   · intro _ hst
     simp only [Stmt.pos] at hst
-    rw [hn]; apply hstop
+    rw [show (live && (Stmt.compl ls (.ifS p test c (some al))).n) = (L && ((c.compl []).n || (al.compl []).n)) by
+      rw [if_some_fields ls p test c al hpl |>.1, ← Bool.and_assoc, hL]]
+    apply hstop
     exact markAsEnd_self_stops _ _ _ hst
 
 end DL.CF
